@@ -114,6 +114,14 @@ def Cmd.inRange : Cmd → Bool
 def Cmd.wf (c : Cmd) : Bool :=
   c.inRange && (match c with | .progFuses _ d => d.length % 4 == 0 | _ => true)
 
+/-- the command constructors: `CmdProgFuses.__init__` refuses data that is not a whole number of fuse words
+    (`SPSDKError`); every other constructor accepts its arguments as they are -/
+def newCmd (c : Cmd) : PyRes Cmd :=
+  match c with
+  | .progFuses _ d =>
+    if Sb31Consts.fuseDataGuard ≠ 0 ∧ d.length % Sb31Consts.fuseDataGuard ≠ 0 then .error .spsdk else .ok c
+  | _ => .ok c
+
 /-! ## Section header, chunking, data blocks (images.py: SecureBinary31Commands) -/
 
 /-- `CmdSectionHeader(length).export()` -/
